@@ -553,16 +553,21 @@ class Bridge:
             if self.listener is not None:
                 return
             pid = os.getpid()
+            from vf.instruments.monitors import NET
+
             srv = socket.socket()
-            for k in range(1, 200):
+            # an address of its own (so that "somebody's own loopback business" on 127.0.0.1 is told apart); plain 127.0.0.1 if
+            # the host does not route the rest of 127/8
+            for cand in (f"127.{1 + pid % 250}.{(pid // 250) % 250}.251", f"127.{1 + pid % 250}.{(pid // 250) % 250}.252", "127.0.0.1"):
                 try:
-                    srv.bind((f"127.{1 + pid % 250}.{(pid // 250) % 250}.{251 + k % 4}", 0))
+                    srv.bind((cand, 0))
                     break
                 except OSError:
                     continue
             srv.listen(128)
             self.listener = srv
             self.addr = srv.getsockname()
+            NET.bridge_addr = self.addr[0]
             threading.Thread(target=self._accept, daemon=True, name="vf-bridge-accept").start()
 
     def _accept(self) -> None:
